@@ -216,7 +216,7 @@ func bits(present []bool) string {
 // ---------------------------------------------------------------------------------- Pad / Unpad
 
 func TestPropPadUnpad(t *testing.T) {
-	stats.Check(t, stats.Budget{Quick: 1500, Thorough: 25000},
+	stats.Check(t, stats.Budget{Quick: 8000, Thorough: 100000},
 		"PadMessage vs reference layout [varint|msg|zeros to the next multiple of 2*data] for data 1..16 and lengths 0..4 KiB biased to "+
 			"padding and varint boundaries; Unpad(Pad(m)) = m; UnpadMessage on arbitrary buffers (declared length exact/over/huge/overflowing, "+
 			"non-canonical or truncated varint) vs reference parser, never a panic; non-trivial = prefixed length within 2 of a multiple of 2*data "+
@@ -312,7 +312,7 @@ func genUnpadInput(rt *rapid.T, c *stats.Case) ([]byte, string) {
 // ---------------------------------------------------------------------------------- Reed-Solomon
 
 func TestPropReedSolomon(t *testing.T) {
-	stats.Check(t, stats.Budget{Quick: 700, Thorough: 10000},
+	stats.Check(t, stats.Budget{Quick: 4000, Thorough: 50000},
 		"EncodeData of a padded message for (data,parity) in 1..8 x 0..8: data shards are the split input, all shards equal length; "+
 			"drop any subset of <= parity shards -> RecoverData returns every original shard; drop > parity -> error, no panic; "+
 			"non-trivial = at least one data shard dropped",
@@ -408,7 +408,7 @@ func TestPropReedSolomon(t *testing.T) {
 // ---------------------------------------------------------------------------------- Merkle
 
 func TestPropMerkle(t *testing.T) {
-	stats.Check(t, stats.Budget{Quick: 700, Thorough: 10000},
+	stats.Check(t, stats.Budget{Quick: 4000, Thorough: 50000},
 		"merkle.New on 1..20 arbitrary leaves (empty and duplicate leaves allowed): root and every proof equal an independent recursive "+
 			"reference (tagged SHA-256, padding to a power of two >= 2 with the empty-leaf hash); Proof.Verify agrees with a reference verifier on "+
 			"honest and corrupted (leaf, sibling, root, index, proof length) inputs and rejects every effective corruption; "+
@@ -585,16 +585,28 @@ func checkHonestUnits(c *stats.Case, units []propeller.Unit, pub ident, committe
 	}
 }
 
-func currentLeafMode(c *stats.Case) leafMode {
-	if stats.Known(kLeaf) {
-		c.Excluded(kLeaf)
-		return leafRaw
+// currentLeafMode: the leaf encoding the oracles hold the producer/reconstruction to. The documented one
+// (protobuf ShardsOfPeer); while kLeaf is a known finding the raw-shard commitment of the pinned tree is
+// tolerated as well (whichever of the two the units actually use must then be used consistently).
+func currentLeafMode(c *stats.Case, units []propeller.Unit) leafMode {
+	if !stats.Known(kLeaf) || len(units) == 0 {
+		return leafProto
 	}
-	return leafProto
+	leaves := make([][]byte, len(units))
+	for i := range units {
+		leaves[i] = leafBytes(leafProto, shardSlices(units[i].ShardData))
+	}
+	if hash(units[0].MessageRoot) == refRoot(leaves) {
+		c.Label("leaf:proto")
+		return leafProto
+	}
+	c.Excluded(kLeaf)
+	c.Label("leaf:raw(known deviation)")
+	return leafRaw
 }
 
 func TestPropCreateReconstruct(t *testing.T) {
-	stats.Check(t, stats.Budget{Quick: 1200, Thorough: 20000},
+	stats.Check(t, stats.Budget{Quick: 10000, Thorough: 150000},
 		"CreatePropellerUnits for lengths 0..4 KiB (padding/varint boundaries), (data,parity) in 1..8 x 1..8, Ed25519 key, committee, nonce: units equal the "+
 			"reference publisher field by field, proofs and signature verify (package verifier + independent verifier); index-addressed slice with nil holes for any "+
 			"present subset of size >= data (shard 0 missing, all data shards missing, exactly threshold) -> ConstructMessageFromUnits returns the message bit for bit "+
@@ -608,7 +620,6 @@ func TestPropCreateReconstruct(t *testing.T) {
 			pub := identities()[rapid.IntRange(0, nIdents-1).Draw(rt, "publisher")]
 			committee := genHash(rt, "committee")
 			nonce := genNonce(rt, c)
-			lm := currentLeafMode(c)
 			c.Label("len:" + lk)
 
 			cid := propeller.CommitteeID(committee)
@@ -621,6 +632,7 @@ func TestPropCreateReconstruct(t *testing.T) {
 			if err != nil {
 				c.Violation("create-error", "CreatePropellerUnits(msg len %d, data %d, parity %d) failed: %v", n, d, p, err)
 			}
+			lm := currentLeafMode(c, units)
 			checkHonestUnits(c, units, pub, committee, nonce, msg, d, p, lm)
 
 			present := genPresent(rt, c, d, p, stats.Known(kNilUnit0))
@@ -1005,7 +1017,7 @@ func (w *world) corrupt(rt *rapid.T, c *stats.Case) (ev event, skip bool) {
 }
 
 func TestPropValidatePipeline(t *testing.T) {
-	stats.Check(t, stats.Budget{Quick: 600, Thorough: 10000},
+	stats.Check(t, stats.Budget{Quick: 8000, Thorough: 120000},
 		"receiver of a committee of N in 2..25 Ed25519 peers (data/coding from the scheduler), any local/publisher pair: honest units (CreatePropellerUnits -> protobuf "+
 			"round trip) of a present subset >= BuildThreshold arrive in any order from their scheduled senders, interleaved with 0..4 adversarial deliveries each wrong in "+
 			"exactly one field (shard byte/length/count, proof sibling/length, index in/out of range, signature, committee, publisher, nonce, root, sender, duplicate); "+
@@ -1117,10 +1129,10 @@ var wireKinds = []string{"identity", "root-nil", "root-short", "root-empty", "ro
 	"committee-nil", "committee-short", "committee-long", "byte-flip", "byte-flip", "truncate"}
 
 func TestPropWireMalformed(t *testing.T) {
-	stats.Check(t, stats.Budget{Quick: 500, Thorough: 8000},
+	stats.Check(t, stats.Budget{Quick: 5000, Thorough: 60000},
 		"one honest unit's protobuf message is malformed in one place (root/committee/sibling of wrong length or absent, 0/2/3 shards, index >= 2^32, publisher absent or "+
 			"garbage, empty signature, a flipped or cut byte of the encoding) and fed to UnitFromProto then, if it decodes, to the routed UnitValidator from the scheduled "+
-			"sender: never a panic; accepted only if the decoded unit equals the honest one; the unmodified unit is accepted; non-trivial = decoding succeeded on a modified message",
+			"sender: never a panic; accepted only if the decoded unit equals the honest unit of its index; the unmodified unit is accepted; non-trivial = decoding succeeded on a modified message",
 		func(rt *rapid.T, c *stats.Case) {
 			w := genWorld(rt, c)
 			i := rapid.IntRange(0, len(w.units)-1).Draw(rt, "victim")
@@ -1218,12 +1230,17 @@ func TestPropWireMalformed(t *testing.T) {
 			}
 			r := &router{w: w, c: c, vs: map[mkey]*propeller.UnitValidator{}}
 			verr := r.deliver(&u, sender)
-			same := unitDiff(&u, &w.units[i]) == ""
+			// the decoded unit may legitimately be the honest unit of the index it now claims (identical shards, e.g. 1 data + 1 parity)
+			j := i
+			if int(u.ShardIndex) < len(w.units) {
+				j = int(u.ShardIndex)
+			}
+			same := unitDiff(&u, &w.units[j]) == ""
 			switch {
 			case verr == nil && !same:
-				c.Violation("malformed-accepted", "a %s message decoded to a unit differing from the honest one in %s and was accepted by Validate", kind, unitDiff(&u, &w.units[i]))
+				c.Violation("malformed-accepted", "a %s message decoded to a unit differing from the honest unit %d in %s and was accepted by Validate", kind, j, unitDiff(&u, &w.units[j]))
 			case verr != nil && same:
-				c.Violation("honest-rejected", "a %s message decoded to exactly the honest unit %d but was rejected: %v", kind, i, verr)
+				c.Violation("honest-rejected", "a %s message decoded to exactly the honest unit %d but was rejected: %v", kind, j, verr)
 			case verr == nil:
 				c.Label("accepted-equal-to-honest")
 			default:
